@@ -971,9 +971,10 @@ func (s *S3Proxy) GetObjectAttributes(ctx context.Context, input *s3.GetObjectAt
 		return s3response.GetObjectAttributesResponse{}, handleError(err)
 	}
 
-	parts := s3response.ObjectParts{}
+	var parts *s3response.ObjectParts
 	objParts := out.ObjectParts
 	if objParts != nil {
+		parts = &s3response.ObjectParts{}
 		if objParts.PartNumberMarker != nil {
 			partNumberMarker, err := strconv.Atoi(*objParts.PartNumberMarker)
 			if err != nil {
@@ -1000,9 +1001,9 @@ func (s *S3Proxy) GetObjectAttributes(ctx context.Context, input *s3.GetObjectAt
 		LastModified: out.LastModified,
 		ObjectSize:   out.ObjectSize,
 		StorageClass: out.StorageClass,
-		ObjectParts:  &parts,
+		ObjectParts:  parts,
 		Checksum:     out.Checksum,
-	}, handleError(err)
+	}, nil
 }
 
 func (s *S3Proxy) CopyObject(ctx context.Context, input s3response.CopyObjectInput) (*s3.CopyObjectOutput, error) {
